@@ -27,7 +27,7 @@ def fams_for(prop, quick):
     """family ids (see YangTypesSets.tla ChainsOf) and the design-law items for a property and tier"""
     if prop == "C13":
         if quick:
-            f = [1000 + 100 * b + i for b in (1, 4) for i in (1, 4, 5, 6, 8, 10, 11, 13, 16)]
+            f = [1000 + 100 * b + i for b in (1, 4) for i in (1, 4, 5, 6, 10, 11, 13, 16)]
             f += [2000 + 100 * 4 + 10 * i1 + i2 for i1 in (2, 3) for i2 in (1, 2)]
             f += [3000 + 100 * fd + i for fd in (1, 3) for i in (1, 4, 5, 6, 9, 12)]
             f += [4002, 5002, 5003, 5004, 5008, 6001, 6003, 7001, 7002, 7003]
@@ -41,10 +41,13 @@ def fams_for(prop, quick):
         laws = [20001, 20002]
         # groups of sibling leaves: 100xx the same typedef chain refined differently, 101tx identical restriction texts over different bases
         if quick:
-            f += [10001, 10002, 10003, 10004, 10006, 10011, 10013, 10022, 10111, 10112, 10116, 10121, 10131, 10140]
+            f += [10001, 10003, 10004, 10006, 10011, 10013, 10022, 10111, 10112, 10116, 10121, 10131, 10140]
+            # 1200b parts at both extremes of the type, 12010 the same for lengths, 121xx inherited default under a level adding one restriction kind
+            f += [12003, 12004, 12010, 12111, 12102, 12105]
             rand += [11001]
         else:
             f += [10000 + i for i in (1, 2, 3, 4, 5, 6, 11, 12, 13, 21, 22)] + [10110 + i for i in range(1, 9)] + [10120 + i for i in range(1, 7)] + [10131, 10132, 10133, 10140]
+            f += [12001, 12002, 12003, 12004, 12010, 12101, 12102, 12103, 12104, 12105]
             rand += list(range(11001, 11007))
     else:
         f = [8000 + i for i in range(1, 9)] + [8010 + i for i in range(1, 7)] + [8020, 8021, 8022]
@@ -265,9 +268,10 @@ def run(ctx):
     ctx.build(["ty"])
     maxd = 3
     # 1. design laws
-    mcf = laws + ([f for f in fams if f // 1000 in (1, 3, 5, 6, 7, 8) and f != 7003][::4] if quick else [f for f in fams if f < 10000])
-    ctx.tlc("YangTypesMC", "YangTypesMC.cfg", workers=12, timeout=1200, heap="8g",
-            consts={"Fams": set_lit(mcf), "MaxDepth": maxd})
+    mcf = laws + ([f for f in fams if f // 1000 in (1, 3, 5, 6, 7, 8, 12) and f != 7003][::4] if quick else [f for f in fams if f // 1000 not in (10, 11)])
+    def design_laws():
+        ctx.tlc("YangTypesMC", "YangTypesMC.cfg", workers=6, timeout=1200, heap="8g",
+                consts={"Fams": set_lit(mcf), "MaxDepth": maxd})
     # 2. behaviour generator: the exhaustive families in one TLC run (one family per initial state), the seeded random
     #    families in single-worker runs (seed derived from ctx.seed; one worker draws in a fixed order: reproducible)
     nrand = 40 if quick else 400
@@ -280,7 +284,9 @@ def run(ctx):
 
     ngroups = 1 if quick else 6
     groups = [rand[i::ngroups] for i in range(ngroups)]
-    with cf.ThreadPoolExecutor(max_workers=ngroups) as ex:
+    with cf.ThreadPoolExecutor(max_workers=ngroups + 1) as ex:
+        mc = ex.submit(design_laws)       # the design laws are checked while the vectors are generated
+        time.sleep(0.3)
         futs = []
         for gi, group in enumerate(groups):
             futs.append(ex.submit(gen_random, gi, group))
@@ -290,6 +296,7 @@ def run(ctx):
         vfiles = sorted(os.path.join(g["dir"], f) for f in os.listdir(g["dir"]) if re.match(r"vec_\d+\.ndjson$", f))
         for f in futs:
             vfiles += f.result()
+        mc.result()
     if not vfiles or any(not os.path.exists(f) for f in vfiles):
         raise Infra("generator produced no vectors")
     obsf = ctx.path("obs.ndjson")
